@@ -59,7 +59,30 @@ struct Item {
 #ifdef AMC_CXX20
   auto operator<=>(const Item &o) const { return key <=> o.key; }
 #endif
+  friend bool operator<(const Item &a, long b) { return a.key < b; }  // heterogeneous lookups under std::less<>
+  friend bool operator<(long a, const Item &b) { return a < b.key; }
 };
+template <class T> static int key_of(const T &x) { return x.key; }
+static int key_of(int x) { return x; }
+template <class T> static int pad_of(const T &x) { return x.pad; }
+static int pad_of(int x) { return x * 3 + 1; }
+template <class C> struct IsTransparent : std::false_type {};
+template <> struct IsTransparent<std::less<> > : std::true_type {};
+template <class S, class Cmp = typename S::key_compare>
+static typename std::enable_if<IsTransparent<Cmp>::value, long>::type hetero_lookup(const S &c, int k) {
+  long key = k;
+  return (c.find(key) != c.end()) + 2 * c.contains(key) + 4 * (long)c.count(key);
+}
+template <class S, class Cmp = typename S::key_compare>
+static typename std::enable_if<!IsTransparent<Cmp>::value, long>::type hetero_lookup(const S &, int) { return 0; }
+template <class S, class Cmp = typename S::key_compare>
+static typename std::enable_if<IsTransparent<Cmp>::value, long>::type hetero_bounds(const S &c, int k) {
+  long key = k;
+  auto pr = c.equal_range(key);
+  return (long)(c.lower_bound(key) - c.begin()) + (long)(c.upper_bound(key) - c.begin()) + (long)(pr.second - pr.first);
+}
+template <class S, class Cmp = typename S::key_compare>
+static typename std::enable_if<!IsTransparent<Cmp>::value, long>::type hetero_bounds(const S &, int) { return 0; }
 
 // ------------------------------------------------------------------------------------------------ scheduler
 struct Sched {
@@ -97,72 +120,112 @@ struct Sched {
   }
 };
 
+static int g_keyDom = 40;  // key domain of the current run (set before the threads start, read-only afterwards)
 static volatile long g_sink;  // results of the const operations end here (thread-private accumulation, written under ignore)
 
 // ------------------------------------------------------------------------------------------------ reader operations
 template <class V>
 static long vec_reader_op(const V &c, const V &mine, unsigned op, unsigned arg) {
+  typedef typename V::value_type T;
   long acc = 0;
-  switch (op % 10) {
+  switch (op % 14) {
     case 0: acc = (long)c.size() + (long)c.capacity() + (c.empty() ? 1 : 0) + (long)c.max_size() % 7; break;
-    case 1: for (typename V::const_iterator it = c.begin(); it != c.end(); ++it) acc += it->key; break;
-    case 2: for (typename V::const_reverse_iterator it = c.rbegin(); it != c.rend(); ++it) acc += it->pad; break;
-    case 3: if (!c.empty()) acc = c[(typename V::size_type)(arg % c.size())].key + c.at((typename V::size_type)(arg % c.size())).pad; break;
-    case 4: if (!c.empty()) acc = c.front().key + c.back().key + c.data()[arg % c.size()].key; break;
+    case 1: for (typename V::const_iterator it = c.begin(); it != c.end(); ++it) acc += key_of(*it); break;
+    case 2: for (typename V::const_reverse_iterator it = c.rbegin(); it != c.rend(); ++it) acc += pad_of(*it); break;
+    case 3: if (!c.empty()) acc = key_of(c[(typename V::size_type)(arg % c.size())]) + pad_of(c.at((typename V::size_type)(arg % c.size()))); break;
+    case 4: if (!c.empty()) acc = key_of(c.front()) + key_of(c.back()) + key_of(c.data()[arg % c.size()]); break;
     case 5: acc = (c == mine) + 2 * (c != mine); break;
     case 6: acc = (c < mine) + 2 * (c <= mine) + 4 * (c > mine) + 8 * (c >= mine); break;
     case 7: { V copy(c); acc = (long)copy.size(); } break;
     case 8: { V copy; copy = c; acc = (long)copy.size(); } break;
+    case 9: { V copy(c.begin(), c.end()); acc = (long)copy.size(); } break;                      // range construction from the shared container's iterators
+    case 10: { std::vector<T> copy(c.cbegin(), c.cend()); acc = (long)copy.size(); } break;
+    case 11: { V copy(c, c.get_allocator()); acc = (long)copy.size(); } break;                    // allocator-extended copy
+    case 12: { V other(mine); if (other.size() + c.size() <= other.max_size()) other.insert(other.begin(), c.begin(), c.end()); other.assign(c.begin(), c.end()); acc = (long)other.size(); } break;
     default: acc = (long)(c.cend() - c.cbegin()) + (long)(c.crend() - c.crbegin()); break;
   }
   return acc;
 }
+template <class V, typename std::enable_if<(V::kInlineCapacity == 0) || !std::is_same<typename V::allocator_type, amc::vec::EmptyAlloc>::value, bool>::type = true>
+static void vec_swap2(V &a, amc::SmallVector<typename V::value_type, 3, amc::allocator<typename V::value_type> > &b) { a.swap2(b); }
+template <class V, typename std::enable_if<!((V::kInlineCapacity == 0) || !std::is_same<typename V::allocator_type, amc::vec::EmptyAlloc>::value), bool>::type = true>
+static void vec_swap2(V &a, amc::SmallVector<typename V::value_type, 3, amc::allocator<typename V::value_type> > &b) {
+  if (b.size() <= a.capacity()) a.swap2(b);
+}
 template <class V>
-static void vec_writer_op(V &mine, unsigned op, unsigned arg, size_t room) {
-  switch (op % 8) {
-    case 0: if (mine.size() < room) mine.push_back(Item((int)arg % 50)); break;
+static void vec_writer_op(V &mine, V &mine2, const V &shared, unsigned op, unsigned arg, size_t room) {
+  typedef typename V::value_type T;
+  switch (op % 18) {
+    case 0: if (mine.size() < room) mine.push_back(T((int)(arg % (unsigned)(g_keyDom + 10)))); break;
     case 1: if (!mine.empty()) mine.pop_back(); break;
-    case 2: if (mine.size() < room) mine.insert(mine.begin() + arg % (mine.size() + 1), Item((int)arg % 50)); break;
+    case 2: if (mine.size() < room) mine.insert(mine.begin() + arg % (mine.size() + 1), T((int)(arg % (unsigned)(g_keyDom + 10)))); break;
     case 3: if (!mine.empty()) mine.erase(mine.begin() + arg % mine.size()); break;
     case 4: mine.clear(); break;
     case 5: mine.shrink_to_fit(); break;
-    case 6: if (mine.size() + 3 <= room) mine.insert(mine.end(), 3, Item(7)); break;
-    default: mine.resize(arg % (room < 6 ? room : 6)); break;
+    case 6: if (mine.size() + 3 <= room) mine.insert(mine.end(), 3, T(7)); break;
+    case 7: mine.resize(arg % (room < 6 ? room : 6)); break;
+    case 8: mine.swap(mine2); break;
+    case 9: mine = std::move(mine2); mine2.clear(); break;
+    case 10: mine2 = mine; break;
+    case 11: mine = shared; break;                                                                 // copy assignment from the shared container (a const use of it)
+    case 12: mine.assign(shared.begin(), shared.end()); break;
+    case 13: if (mine.size() < room) mine.emplace(mine.begin() + arg % (mine.size() + 1), (int)arg % 50); break;
+    case 14: mine.reserve((typename V::size_type)(arg % (room < 24 ? room : 24))); break;
+    case 15: if (mine.size() >= 2) mine.erase(mine.begin() + 1, mine.begin() + 1 + arg % (mine.size() - 1)); break;
+    case 16: { amc::SmallVector<T, 3, amc::allocator<T> > other; for (unsigned i = 0; i < arg % 6 && i < room; ++i) other.push_back(T((int)i)); vec_swap2(mine, other); } break;
+    default: mine.assign((typename V::size_type)(arg % (room < 9 ? room : 9)), T((int)(arg % (unsigned)(g_keyDom + 10)))); break;
   }
 }
 template <class S>
 static long set_reader_op(const S &c, const S &mine, unsigned op, unsigned arg, bool flat) {
+  typedef typename S::value_type T;
   long acc = 0;
-  Item k((int)(arg % 40));
-  switch (op % 10) {
+  T k((int)(arg % (unsigned)g_keyDom));
+  switch (op % 14) {
     case 0: acc = (long)c.size() + (c.empty() ? 1 : 0); break;
-    case 1: for (typename S::const_iterator it = c.begin(); it != c.end(); ++it) acc += it->key; break;
-    case 2: for (typename S::const_reverse_iterator it = c.rbegin(); it != c.rend(); ++it) acc += it->pad; break;
+    case 1: for (typename S::const_iterator it = c.begin(); it != c.end(); ++it) acc += key_of(*it); break;
+    case 2: for (typename S::const_reverse_iterator it = c.rbegin(); it != c.rend(); ++it) acc += pad_of(*it); break;
     case 3: acc = (c.find(k) != c.end()) + 2 * c.contains(k) + 4 * (long)c.count(k); break;
     case 4: acc = (c == mine) + 2 * (c != mine); break;
     case 5: acc = (c < mine) + 2 * (c <= mine) + 4 * (c > mine) + 8 * (c >= mine); break;
     case 6: { S copy(c); acc = (long)copy.size(); } break;
     case 7: { S copy; copy = c; acc = (long)copy.size(); } break;
     case 8: acc = (long)c.max_size() % 5 + (c.cbegin() == c.begin()); break;
-    default: (void)flat; acc = (c.find(k) == c.end()); break;
+    case 9: acc = hetero_lookup(c, (int)(arg % (unsigned)g_keyDom)); break;
+    case 10: { S copy(c.begin(), c.end()); acc = (long)copy.size(); } break;                      // range construction from the shared set's iterators
+    case 11: { S other(mine); other.insert(c.begin(), c.end()); acc = (long)other.size(); } break;
+    case 12: { typename S::key_compare kc = c.key_comp(); typename S::value_compare vc = c.value_comp(); acc = kc(k, k) + vc(k, k); (void)c.get_allocator(); } break;
+    default: (void)flat; acc = (c.find(k) == c.end()) + (mine == c) + (mine < c); break;
   }
   return acc;
 }
 template <class S>
 static long flat_extra_op(const S &c, unsigned arg) {
-  Item k((int)(arg % 40));
+  typedef typename S::value_type T;
+  T k((int)(arg % (unsigned)g_keyDom));
   std::pair<typename S::const_iterator, typename S::const_iterator> pr = c.equal_range(k);
-  return (long)(c.lower_bound(k) - c.begin()) + (long)(c.upper_bound(k) - c.begin()) + (long)(pr.second - pr.first) + (c.empty() ? 0 : c.front().key + c.back().key + c[0].key + c.data()[0].key) +
-         (long)c.capacity();
+  return (long)(c.lower_bound(k) - c.begin()) + (long)(c.upper_bound(k) - c.begin()) + (long)(pr.second - pr.first) +
+         (c.empty() ? 0 : key_of(c.front()) + key_of(c.back()) + key_of(c[0]) + key_of(c.data()[0]) + key_of(c.at(0))) + (long)c.capacity() + hetero_bounds(c, (int)(arg % (unsigned)g_keyDom));
 }
 template <class S>
-static void set_writer_op(S &mine, unsigned op, unsigned arg) {
-  switch (op % 6) {
-    case 0: case 1: mine.insert(Item((int)(arg % 40))); break;
-    case 2: mine.erase(Item((int)(arg % 40))); break;
+static void set_writer_op(S &mine, S &mine2, const S &shared, unsigned op, unsigned arg) {
+  typedef typename S::value_type T;
+  switch (op % 16) {
+    case 0: case 1: mine.insert(T((int)(arg % (unsigned)g_keyDom))); break;
+    case 2: mine.erase(T((int)(arg % (unsigned)g_keyDom))); break;
     case 3: if (!mine.empty()) mine.erase(mine.begin()); break;
-    case 4: mine.emplace((int)(arg % 40)); break;
-    default: mine.clear(); break;
+    case 4: mine.emplace((int)(arg % (unsigned)g_keyDom)); break;
+    case 5: mine.clear(); break;
+    case 6: mine.swap(mine2); break;
+    case 7: mine = std::move(mine2); mine2.clear(); break;
+    case 8: mine2 = mine; break;
+    case 9: mine = shared; break;                                                                  // copy assignment from the shared set (a const use of it)
+    case 10: mine.insert(shared.begin(), shared.end()); break;                                    // bulk path fed from the shared set's iterators
+    case 11: mine.merge(mine2); break;
+    case 12: { typename S::node_type nh = mine.extract(T((int)(arg % (unsigned)g_keyDom))); if (!nh.empty()) mine2.insert(std::move(nh)); } break;
+    case 13: mine.emplace_hint(mine.begin(), (int)(arg % (unsigned)g_keyDom)); break;
+    case 14: { T vals[5] = {T((int)(arg % (unsigned)g_keyDom)), T((int)(arg % 7)), T(3), T((int)(arg % (unsigned)g_keyDom)), T(39)}; mine.insert(vals, vals + 5); } break;
+    default: if (!mine.empty()) mine.erase(mine.begin(), mine.end()); break;
   }
 }
 
@@ -213,13 +276,14 @@ static RunResult run_threads(uint64_t seed, const C &shared, ReaderFn readerOp, 
   std::vector<std::thread> threads;
   for (int i = 0; i < N; ++i) {
     threads.emplace_back([&, i]() {
-      C mine(shared);  // thread-private container (copy-construction from the shared one is itself a const operation)
+      C mine(shared);  // thread-private containers (copy-construction from the shared one is itself a const operation)
+      C mine2;
       long acc = 0;
       const std::vector<std::pair<unsigned, unsigned>> &sc = scripts[i];
       for (size_t k = 0; k < sc.size(); ++k) {
         sch.wait_turn(i);
         if (i < R) acc += readerOp(shared, mine, sc[k].first, sc[k].second);
-        else writerOp(mine, sc[k].first, sc[k].second);
+        else writerOp(mine, mine2, shared, sc[k].first, sc[k].second);
         sch.yield_back(k + 1 == sc.size());
       }
       IGN_BEGIN();
@@ -250,33 +314,48 @@ static RunResult run_threads(uint64_t seed, const C &shared, ReaderFn readerOp, 
   return res;
 }
 
-typedef amc::allocator<Item> AL;
 template <class V>
 static RunResult vec_case(uint64_t seed, unsigned fill, bool reserveFirst, size_t room, bool verbose) {
+  typedef typename V::value_type T;
   V shared;
+  g_keyDom = 40;
   if (reserveFirst) shared.reserve((typename V::size_type)(room < 12 ? room : 12));
-  for (unsigned i = 0; i < fill && i < room; ++i) shared.push_back(Item((int)(i * 7 % 40)));
+  for (unsigned i = 0; i < fill && i < room; ++i) shared.push_back(T((int)(i * 7 % 40)));
   return run_threads(seed, shared, [](const V &c, const V &m, unsigned op, unsigned a) { return vec_reader_op(c, m, op, a); },
-                     [room](V &m, unsigned op, unsigned a) { vec_writer_op(m, op, a, room); }, [](const V &c, Footprint &f) { footprint_vec(c, f); }, verbose);
+                     [room](V &m, V &m2, const V &sh, unsigned op, unsigned a) { vec_writer_op(m, m2, sh, op, a, room); }, [](const V &c, Footprint &f) { footprint_vec(c, f); }, verbose);
 }
 template <class S>
-static RunResult set_case(uint64_t seed, unsigned fill, bool flat, bool verbose) {
+static RunResult set_case(uint64_t seed, unsigned fill, bool verbose) {
+  typedef typename S::value_type T;
   S shared;
-  for (unsigned i = 0; i < fill; ++i) shared.insert(Item((int)(i * 11 % 40)));
-  return run_threads(seed, shared, [flat](const S &c, const S &m, unsigned op, unsigned a) { return set_reader_op(c, m, op, a, flat); },
-                     [](S &m, unsigned op, unsigned a) { set_writer_op(m, op, a); }, [](const S &c, Footprint &f) { footprint_set(c, f); }, verbose);
+  g_keyDom = fill > 30 ? (int)fill * 2 : 40;
+  for (unsigned i = 0; i < fill; ++i) shared.insert(T((int)(i * 11 % (unsigned)g_keyDom)));
+  return run_threads(seed, shared, [](const S &c, const S &m, unsigned op, unsigned a) { return set_reader_op(c, m, op, a, false); },
+                     [](S &m, S &m2, const S &sh, unsigned op, unsigned a) { set_writer_op(m, m2, sh, op, a); }, [](const S &c, Footprint &f) { footprint_set(c, f); }, verbose);
 }
-typedef amc::FlatSet<Item, std::less<Item>, AL> FSet;
+// FlatSet: bounds, positional access and (under a transparent comparator) heterogeneous lookups on top of the common set operations
+template <class FS>
 static RunResult flat_case(uint64_t seed, unsigned fill, bool verbose) {
-  FSet shared;
-  for (unsigned i = 0; i < fill; ++i) shared.insert(Item((int)(i * 11 % 40)));
-  return run_threads(seed, shared, [](const FSet &c, const FSet &m, unsigned op, unsigned a) { return (op >> 8) % 3 == 0 ? flat_extra_op(c, a) : set_reader_op(c, m, op, a, true); },
-                     [](FSet &m, unsigned op, unsigned a) { set_writer_op(m, op, a); }, [](const FSet &c, Footprint &f) { footprint_set(c, f); }, verbose);
+  typedef typename FS::value_type T;
+  FS shared;
+  g_keyDom = fill > 30 ? (int)fill * 2 : 40;
+  for (unsigned i = 0; i < fill; ++i) shared.insert(T((int)(i * 11 % (unsigned)g_keyDom)));
+  return run_threads(seed, shared, [](const FS &c, const FS &m, unsigned op, unsigned a) { return (op >> 8) % 3 == 0 ? flat_extra_op(c, a) : set_reader_op(c, m, op, a, true); },
+                     [](FS &m, FS &m2, const FS &sh, unsigned op, unsigned a) { set_writer_op(m, m2, sh, op, a); }, [](const FS &c, Footprint &f) { footprint_set(c, f); }, verbose);
 }
 
+typedef amc::allocator<Item> AL;
+typedef amc::allocator<int> ALI;
+typedef amc::FlatSet<Item, std::less<Item>, AL> FSet;
+typedef amc::FlatSet<int, std::less<int>, ALI> FSetI;
 static const char *kKinds[] = {"vector", "SmallVector<4> inline", "SmallVector<4> heap", "FixedCapacityVector<8>", "FlatSet", "SmallSet<4> inline", "SmallSet<4> large",
-                               "SmallSet<4,FlatSet> inline", "SmallSet<4,FlatSet> large", "FlatSet<SmallVector<4>>"};
-static const int kNKinds = 10;
+                               "SmallSet<4,FlatSet> inline", "SmallSet<4,FlatSet> large", "FlatSet<SmallVector<4>>",
+                               "vector<int>", "SmallVector<int,6> inline", "SmallVector<int,2> heap", "vector<std::allocator>", "FlatSet<less<>> transparent",
+                               "FlatSet<int>", "SmallSet<int,3> inline", "SmallSet<int,3> large", "SmallSet<int,5,FlatSet> large", "FlatSet<FixedCapacityVector<96>>",
+                               "SmallSet<3,less<>> inline", "SmallSet<3,less<>> large", "vector<u64 size_type>", "FixedCapacityVector<int,16>",
+                               "FlatSet 64..400 elements", "FlatSet<int> 64..600 elements", "vector<int> buffer >= 128 KiB", "SmallSet<int,3,FlatSet> 64..300 elements",
+                               "FlatSet<less<>> 64..300 elements"};
+static const int kNKinds = 29;
 
 static RunResult run_one(uint64_t seed, int &kind, bool verbose) {
   Rng r(seed ^ 0xC20);
@@ -287,12 +366,32 @@ static RunResult run_one(uint64_t seed, int &kind, bool verbose) {
     case 1: return vec_case<amc::SmallVector<Item, 4, AL>>(seed, f + 1, false, 40, verbose);
     case 2: return vec_case<amc::SmallVector<Item, 4, AL>>(seed, 5 + r.below(8), false, 40, verbose);
     case 3: return vec_case<amc::FixedCapacityVector<Item, 8>>(seed, 1 + r.below(8), false, 8, verbose);
-    case 4: return flat_case(seed, 1 + r.below(20), verbose);
-    case 5: return set_case<amc::SmallSet<Item, 4, std::less<Item>, AL>>(seed, 1 + f, false, verbose);
-    case 6: return set_case<amc::SmallSet<Item, 4, std::less<Item>, AL>>(seed, 6 + r.below(10), false, verbose);
-    case 7: return set_case<amc::SmallSet<Item, 4, std::less<Item>, AL, FSet>>(seed, 1 + f, false, verbose);
-    case 8: return set_case<amc::SmallSet<Item, 4, std::less<Item>, AL, FSet>>(seed, 6 + r.below(10), false, verbose);
-    default: return set_case<amc::FlatSet<Item, std::less<Item>, AL, amc::SmallVector<Item, 4, AL>>>(seed, 1 + r.below(9), true, verbose);
+    case 4: return flat_case<FSet>(seed, 1 + r.below(20), verbose);
+    case 5: return set_case<amc::SmallSet<Item, 4, std::less<Item>, AL>>(seed, 1 + f, verbose);
+    case 6: return set_case<amc::SmallSet<Item, 4, std::less<Item>, AL>>(seed, 6 + r.below(10), verbose);
+    case 7: return set_case<amc::SmallSet<Item, 4, std::less<Item>, AL, FSet>>(seed, 1 + f, verbose);
+    case 8: return set_case<amc::SmallSet<Item, 4, std::less<Item>, AL, FSet>>(seed, 6 + r.below(10), verbose);
+    case 9: return flat_case<amc::FlatSet<Item, std::less<Item>, AL, amc::SmallVector<Item, 4, AL>>>(seed, 1 + r.below(9), verbose);
+    case 10: return vec_case<amc::vector<int, ALI>>(seed, 1 + r.below(20), r.below(2) != 0, 40, verbose);
+    case 11: return vec_case<amc::SmallVector<int, 6, ALI>>(seed, 1 + r.below(6), false, 40, verbose);
+    case 12: return vec_case<amc::SmallVector<int, 2, ALI>>(seed, 3 + r.below(12), false, 40, verbose);
+    case 13: return vec_case<amc::vector<Item, std::allocator<Item>>>(seed, 1 + r.below(12), r.below(2) != 0, 40, verbose);
+    case 14: return flat_case<amc::FlatSet<Item, std::less<>, AL>>(seed, 1 + r.below(20), verbose);
+    case 15: return flat_case<FSetI>(seed, 1 + r.below(30), verbose);
+    case 16: return set_case<amc::SmallSet<int, 3, std::less<int>, ALI>>(seed, 1 + r.below(3), verbose);
+    case 17: return set_case<amc::SmallSet<int, 3, std::less<int>, ALI>>(seed, 4 + r.below(12), verbose);
+    case 18: return set_case<amc::SmallSet<int, 5, std::less<int>, ALI, FSetI>>(seed, 6 + r.below(12), verbose);
+    case 19: return flat_case<amc::FlatSet<Item, std::less<Item>, amc::vec::EmptyAlloc, amc::FixedCapacityVector<Item, 96>>>(seed, 1 + r.below(12), verbose);
+    case 20: return set_case<amc::SmallSet<Item, 3, std::less<>, AL>>(seed, 1 + r.below(3), verbose);
+    case 21: return set_case<amc::SmallSet<Item, 3, std::less<>, AL>>(seed, 4 + r.below(10), verbose);
+    case 22: return vec_case<amc::vector<Item, AL, uint64_t>>(seed, 1 + r.below(12), r.below(2) != 0, 40, verbose);
+    case 23: return vec_case<amc::FixedCapacityVector<int, 16>>(seed, 1 + r.below(16), false, 16, verbose);
+    // larger containers: code paths that only exist from a size on (caches, thresholds), and buffers large enough for an allocator to treat specially
+    case 24: return flat_case<FSet>(seed, 64 + r.below(337), verbose);
+    case 25: return flat_case<FSetI>(seed, 64 + r.below(537), verbose);
+    case 26: return vec_case<amc::vector<int, ALI>>(seed, 33000 + r.below(9000), false, 50000, verbose);
+    case 27: return set_case<amc::SmallSet<int, 3, std::less<int>, ALI, FSetI>>(seed, 64 + r.below(237), verbose);
+    default: return flat_case<amc::FlatSet<Item, std::less<>, AL>>(seed, 64 + r.below(237), verbose);
   }
 }
 
@@ -318,7 +417,7 @@ int main(int argc, char **argv) {
     unsigned stride = argc > 6 ? (unsigned)atoi(argv[6]) : 1;
     std::chrono::steady_clock::time_point t0 = std::chrono::steady_clock::now();
     unsigned long runs = 0, ops = 0;
-    unsigned long perKind[16] = {0};
+    unsigned long perKind[32] = {0};
     for (uint64_t k = 0; k < count; ++k) {
       uint64_t i = start + k * stride;
       int kind = 0;
